@@ -80,7 +80,7 @@ func via(v string) string {
 type scenario struct {
 	Name            string
 	Upgrades        string // "" | "local" | "remote-ok" | "remote-4xx" | "remote-unreachable" | "remote-stall"
-	Hooks           string // "" | "fast" | "fail" | "hang"
+	Hooks           string // "" | "fast" | "fail" | "hang" | "nostart"
 	CapLimit        int    // 0 = true capacities
 	Default         uint
 	Users           []userSpec
@@ -213,6 +213,10 @@ func newWorld(sc *scenario) *world {
 		w.hookDir = filepath.Join(w.root, "hooks")
 		must(os.MkdirAll(w.hookDir, 0755))
 		must(os.WriteFile(filepath.Join(w.hookDir, "h1"), []byte("#!/bin/sh\n"), 0755))
+		if sc.Hooks == "nostart" {
+			// an executable whose interpreter is missing: it is eligible, but cannot be started
+			must(os.WriteFile(filepath.Join(w.hookDir, "h0"), []byte("#!/nonexistent/interpreter\n"), 0755))
+		}
 	}
 	return w
 }
@@ -308,6 +312,13 @@ func rootBodyWith(sc *scenario, class func(i int, ops []cop) string) func() {
 			xw.Behaviour = func(string) vexec.Behaviour { return vexec.Hang }
 		case "fail":
 			xw.Behaviour = func(string) vexec.Behaviour { return vexec.ExitFail }
+		case "nostart":
+			xw.Behaviour = func(p string) vexec.Behaviour {
+				if strings.HasSuffix(p, "/h0") {
+					return vexec.StartFail
+				}
+				return vexec.ExitOK
+			}
 		}
 		ptype := ""
 		if sc.Policy != "" {
@@ -410,6 +421,14 @@ func (w *world) doOp(o cop) string {
 		w.installCfg(o.Cfg)
 		vsignal.Deliver("harness.sighup", syscall.SIGHUP)
 		return "sent"
+	case "await-idle":
+		// the client waits until the agent has nothing left to do (no queued request, no upgrade in
+		// flight, no timer pending): "on an otherwise idle agent"
+		me := mc.Me()
+		mc.Ext("harness.await-idle", "await-idle", func() bool {
+			return mc.Cur().QuietExcept(func(t *mc.Thread) bool { return t == me })
+		}, func() {})
+		return "idle"
 	case "await-cfg":
 		// the client waits until the reloaded configuration is in effect (as an operator does who
 		// watches the log before trying again)
